@@ -220,10 +220,12 @@ def orientLast (cplx : Option Bool) (rawBands : Nat) (o : ReaderOptions) (applyF
   else (fmt, rev, if tr then [1, 0, 2] else [0, 1, 2])
 
 /-- the outermost segment: identity format function, or ComplexFormatFunction(order, band_dimension=2) -/
+def ordOf (iq : Bool) : COrd := if iq then .IQ else .QI
+
 def wrap (w : Option Bool × List Nat × List Nat) (p : Seg) : Seg :=
   match w.1 with
   | none => .orient w.2.1 w.2.2 p
-  | some iq => .cplx iq w.2.1 w.2.2 2 p
+  | some iq => .cplx (ordOf iq) w.2.1 w.2.2 2 p
 
 /-- complex is modelled for exactly one I/Q pair (band axis collapsed) -/
 def cplxOK (h : ImageHeaderFields) : Bool :=
